@@ -146,8 +146,12 @@ class FakeProcess:
 
     def join(self, timeout=None):
         self.joined += 1
-        self.alive = False
         self.log.add("join", self.pid)
+        if timeout is not None and getattr(self, "slow", False):
+            return  # a bounded join on a process that takes long to go: still alive, exitcode still None
+        self.alive = False
+        if self.exitcode is None:
+            self.exitcode = 0
 
     def kill(self):
         self.killed += 1
